@@ -36,7 +36,7 @@ def check_entity(p, report, ci, f, it, r_param="R5.1", r_arr="R5.2", r_est="R5.3
                 continue
             if r_param is None:
                 continue
-            if str(w.how).startswith("draw:"):
+            if str(w.how).startswith("draw:") and path == ("random_state",):
                 # consuming a caller-supplied RandomState instance is
                 # scikit-learn's random_state contract; the pool-specific
                 # repeated-call clause is decided under C06 (R6.4)
@@ -50,7 +50,10 @@ def check_entity(p, report, ci, f, it, r_param="R5.1", r_arr="R5.2", r_est="R5.3
             pname = root[2:]
             if only_params is not None and pname not in only_params:
                 continue
-            is_est = w.how in ESTIMATOR_HOWS or w.kind == "store"
+            if str(w.how).startswith("draw:") and pname == "random_state" and not path:
+                continue    # the random_state argument itself (scikit-learn's contract)
+            is_est = w.how in ESTIMATOR_HOWS or w.kind == "store" or (
+                str(w.how).startswith("draw:") and path and path[-1] in ("random_state_", "random_state"))
             rid = r_est if is_est else r_arr
             if rid is None:
                 continue
